@@ -6,3 +6,4 @@ git diff --quiet || { echo "/repo not clean"; exit 9; }
 git apply "$d/patch.diff" || { echo "patch does not apply"; exit 9; }
 for p in "$@"; do (cd /verif && ./check "$p" --tier quick; echo "  -> $p exit=$?"); done
 git -C /repo checkout -- .
+git -C /verif checkout -- evidence 2>/dev/null
